@@ -8,6 +8,17 @@ copy every variable in scope into a PROBE instance -- is run through the public
 entry point bridgepoint.interpret.run_function on a fresh ooaofooa.Domain and
 through the reference evaluator (mc.refs.oaleval) on a fresh relational
 reference model; return value and final population must agree.
+
+Two more setups carry a reflexive association class (R4: A -L- A, phrases
+'one' / 'other'); below them the menu is the one of menu_r4 (relate / unrelate
+using a link instance in both phrasings, selections from both participants and
+from the link instance).
+
+Family anyrel: `select any|one v related by <chain> where (<clause>)` over
+populations with fan-out along every relationship, for every chain of
+ANYREL_CHAINS and every clause of the where menu (satisfied by the first, a
+later, several or none of the related instances): v must be empty exactly when
+no related instance satisfies the clause and otherwise be one of those that do.
 '''
 import json
 
@@ -19,7 +30,11 @@ BUDGET_S = {'quick': 240, 'thorough': 2400}
 ASSUMPTIONS = [
     'programs the reference classifies as ill-typed, erroneous (rejected relate, empty handle), diverging within fuel or '
     'dialect-dependent (inexact integer division, negative modulo) are not transitions',
-    '"select any" / "select one" deliver the first candidate in model order (as C09 states for the query layer)',
+    '"select any" / "select one" deliver the first candidate in model order (as C09 states for the query layer) in the statement '
+    'sequence search; in the anyrel family (select any/one along chains with a where clause) the choice among the instances '
+    'satisfying the clause is left open: only emptiness and membership in the set selected by "select many" are compared',
+    'below the two setups with the reflexive association class the menu is restricted to the statements over that association '
+    '(menu_r4), and only population-changing statements lead to states that are expanded further',
     'variables are observed through generated OAL statements copying them into a PROBE instance',
 ]
 
@@ -646,8 +661,8 @@ def anyrel_cases(tier):
 
 
 def anyrel_wheres(chain, tier='thorough'):
-    # the index of a clause in this list is what a replay case records: only append
-    w = ANYREL_WHERES + (ANYREL_WHERES_AB if chain[-1][0] in 'AB' else [ANYREL_WHERES[0]] * len(ANYREL_WHERES_AB))
+    # the index of a clause in this list is what a replay case records; the quick list is a prefix of the thorough one
+    w = ANYREL_WHERES + (ANYREL_WHERES_AB if chain[-1][0] in 'AB' else [])
     return w + (ANYREL_WHERES_THOROUGH if tier == 'thorough' else [])
 
 
@@ -800,10 +815,16 @@ def coverage(ctx):
         traces_validated_against_impl=ctx.n('traces'),
         evaluations=ctx.n('runs'), candidates=ctx.n('candidates'), out_of_domain=ctx.n('out_of_domain'),
         distinct_nontrivial=ctx.nd('nontrivial'), statement_kinds=ctx.nd('stmt_kinds'),
-        rule='breadth-first over statement sequences from three setup programs; every statement of the typed menu extends every '
+        anyrel=dict(runs=ctx.n('anyrel_runs'), no_related_instance_matches=ctx.n('anyrel_empty'), some_match=ctx.n('anyrel_nonempty'),
+                    first_related_fails_later_matches=ctx.n('anyrel_first_related_fails_later_matches')),
+        rule='breadth-first over statement sequences from five setup programs; every statement of the typed menu extends every '
              'distinct state (reference population + variable environment); candidates the reference rejects as out of domain are '
              'not run; non-trivial = distinct programs whose last statement is a loop, a conditional, or a selection with a where '
-             'clause or a relationship chain',
-        bounds=dict(depth=DEPTH[ctx.tier], setups=len(SETUPS), pools=dict(A=3, B=2, C=1)),
+             'clause or a relationship chain; plus the anyrel family: every (link order, chain, where clause, any|one, observation '
+             'variant) combination over the fan-out population',
+        bounds=dict(depth=DEPTH[ctx.tier], setups=len(SETUPS), pools=dict(A=3, B=2, C=1, L=2), setup_menus=SETUP_FOCUS,
+                    anyrel=dict(link_orders=FAN_ORDERS[ctx.tier], chains=len(ANYREL_CHAINS),
+                                where_clauses=len(anyrel_wheres(ANYREL_CHAINS[0][1], ctx.tier)),
+                                population='3 A, 3 B, 2 C, 2 L; R1 a1<-b1,b2,b3; R3 a1-c1-b1, a1-c2-b3; R4 a1-l1->a2, a1-l2->a3; R2 a1,a2,a3')),
         exhaustive=not ctx.caps_hit,
     )
